@@ -21,6 +21,7 @@ ASSUMPTIONS = ["rand::random_range(min..=max) returns a value in [min, max]; the
 Case = PCase
 IMPL_TIMEOUT = 900
 from . import c11 as _c11     # clause (d): ordering of bursts under concurrent writers (scheduled driver `conc`)
+from . import c19 as _c19     # sessions whose scheme is replaced by a pushed one (borrowed histories)
 
 
 def corpus_cases():
@@ -89,6 +90,20 @@ def gen_cases(tier, seed):
             if tier == "quick" and any(b != "1" for b in bits[8:10]):
                 continue            # depth 8 in the quick tier: keep the schedules whose 9th and 10th grants go to task 1
             cs.append(PCase("ord_" + c.cid, c.drv, c.args, "ordering-" + c.kind, True))
+    # "the scheme" of a session is the one in force: after a pushed update the packets below the NEW stop value are
+    # shaped by the new lines, also when the session had already passed the stop value of its first scheme (seed C05-7
+    # latched padding off for good at the first stop). C19's process histories with an adopted push followed by writes,
+    # judged by the same per-packet rule (tools/props/c19.py: Sim.walk), a capped share in the quick tier
+    k = 0
+    for c in _c19.gen_cases(tier, seed):
+        if c.drv == "c19" and _c19.nontrivial(c) and any(op.startswith("P:") for op in c.args):
+            if tier == "quick" and k >= 60:
+                break
+            k += 1
+            c.cid = "c19_" + c.cid
+            c.kind = "pushed-scheme:" + c.kind
+            c.meta = dict(c.meta or {}, borrowed="c19")
+            cs.append(c)
     return cs
 
 
@@ -101,8 +116,9 @@ def auth_expect(c):
 
 
 def after_impl(cases, impl):
+    _c19.after_impl([c for c in cases if c.drv == "c19"], impl)
     for c in cases:
-        if c.cid not in impl or c.drv in ("conc", "mtstart"):
+        if c.cid not in impl or c.drv in ("conc", "mtstart", "c19"):
             continue
         try:
             if c.drv == "shape":
@@ -127,6 +143,8 @@ def after_impl(cases, impl):
 def oracle(c, ir):
     if c.drv in ("conc", "mtstart"):
         return _c11.oracle(c, ir)      # includes: the n-th burst on the transport was shaped with packet number n
+    if c.drv == "c19":
+        return _c19.oracle(c, ir)
     if c.drv == "shape":
         f, _ = check_shape(c, ir, check_wire=True, check_sizes=True)
         return f
@@ -158,6 +176,8 @@ def oracle(c, ir):
 def same(c, ir, mr):
     if c.drv in ("conc", "mtstart"):
         return _c11.same(c, ir, mr)
+    if c.drv == "c19":
+        return _c19.same(c, ir, mr)
     if c.drv == "shape":
         if ir.startswith("PANIC") or mr.startswith("PANIC"):
             return ir.startswith("PANIC") and mr.startswith("PANIC")
